@@ -1,6 +1,14 @@
-"""C01: marginal trees are exactly what the node and edge tables say."""
+"""C01: marginal trees are exactly what the node and edge tables say (C iterator by llsym; the Python edge_diffs /
+edgesets programs by CrossHair)."""
+import json
+import os
+import sys
+
+HERE = os.path.dirname(os.path.dirname(os.path.abspath(__file__)))
+sys.path.insert(0, os.path.join(HERE, 'engine'))
 
 H = 'c01_trees.c'
+M = 'c01_props'
 
 
 def jobs(tier):
@@ -27,25 +35,80 @@ def jobs(tier):
     ]
 
 
+def conds(tier):
+    f = 4 if tier == 'thorough' else 1
+    env = {'CH_PRECISE_FLOATS': '1'}
+    enc = ['tskit.trees.TreeSequence._edge_diffs_forward', 'tskit.trees.TreeSequence._edge_diffs_reverse',
+           'tskit.trees.TreeSequence.edgesets']
+    names = ['edge_diffs_forward_same_pair', 'edge_diffs_reverse_same_pair', 'edgesets_same_pair',
+             'edge_diffs_forward_siblings', 'edge_diffs_reverse_siblings', 'edgesets_siblings']
+    if tier == 'thorough':
+        names += ['edge_diffs_forward_three', 'edge_diffs_reverse_three', 'edgesets_three']
+    what = {'same_pair': 'two disjoint (possibly abutting) edges of one parent/child pair', 'siblings': 'two arbitrarily overlapping sibling edges',
+            'three': 'a split pair plus an overlapping sibling'}
+    return [dict(module=M, function=n, timeout=(150 if 'three' not in n else 300) * f, env=env, encodes=enc,
+                 what='%s, coordinates symbolic binary64' % what[[k for k in what if n.endswith(k)][0]])
+            for n in names]
+
+
 BOUNDS = {
     'quick': 'nodes<=4, edges<=3 (0..2 edges with 5 time profiles x 5 sample profiles and one site, all option passes; 3 edges with 1 '
              'time profile, default options only), parent/child ids enumerated, edge coordinates and site positions solver variables '
              '(integer-valued in [0,2E+1], which realises every order type of 2E end-points), three tree option '
              'passes per table class (default; sample lists + root_threshold 2 + tracked sample; no sample counts), '
-             'forward and backward iteration',
+             'forward and backward iteration. Python: _edge_diffs_forward/_reverse and edgesets() on 2 edges of one parent (same child, '
+             'disjoint or abutting; or two siblings, any overlap) with all four coordinates symbolic binary64 values',
     'thorough': 'as quick plus 4 nodes/3 edges under the remaining time/sample profiles and 5 nodes/4 edges '
-                '(time-boxed; incomplete exploration is reported as such)',
+                '(time-boxed; incomplete exploration is reported as such); Python: plus 3 edges (split pair + sibling)',
 }
 OUTSIDE = ['Python-level traversal orders other than pre/post (timeasc, minlex_postorder, inorder)',
            'non-dyadic coordinates (the code under test only compares and copies coordinates)',
-           'tsk_diff_iter / edge_diffs (covered by C06-style checks only)', 'CPython marshalling in _tskitmodule.c']
+           'the C tsk_diff_iter', 'Python edge_diffs/edgesets with more than 3 edges or several parents', 'CPython marshalling in _tskitmodule.c']
 ASSUMPTIONS = ['valid inputs are produced by real add_row + build_index and filtered by the real tsk_treeseq_init',
-               'node times from the concrete profile list in harness/treegen.h']
+               'node times from the concrete profile list in harness/treegen.h',
+               'Python contracts: the fake tree sequence supplies the two index orders by sorting the symbolic coordinates with the '
+               'build_index keys (the C index builder itself is exercised by the C jobs); CrossHair restricted to its exact IEEE float model']
 MANIFEST = dict(
     text='Bounded exhaustive symbolic execution of the real index builder, tree-sequence constructor and tree '
          'iterator (first/next/last/prev) against a naive per-position oracle computed from the input rows: parent '
          'map, intervals/breakpoints, child/sibling arrays, roots under the threshold, sample/tracked counts, sample '
-         'lists, edge array, traversals, mrca/depth/branch length, per-tree sites.',
+         'lists, edge array, traversals, mrca/depth/branch length, per-tree sites.  CrossHair on the real Python '
+         '_edge_diffs_forward/_reverse and edgesets(): intervals partition the genome at exactly the edge end-points, edges '
+         'in/out are exactly those starting/ending there, edgesets list exactly the children the edge rows give.',
     note='Bounded sizes and a fixed list of node-time profiles; trusts clang IR, the engine (cross-checked by native '
          'replay of sampled paths) and z3.',
-    technique='symbolic execution of LLVM IR + SMT (z3), bounded, differential against a naive oracle')
+    technique='symbolic execution of LLVM IR + SMT (z3) and of Python (CrossHair), bounded, differential against a naive oracle')
+
+
+def run(pid, tier, seed, only=None):
+    """C jobs through the llsym driver, Python contracts through CrossHair; one merged evidence file."""
+    from engine import driver
+    import chdriver
+    out = os.environ.get('VERIF_OUT', HERE)
+    chk = driver.Check(pid, tier)
+    try:
+        js = jobs(tier)
+        if only:
+            js = [j for j in js if only in j['name']]
+        if js:
+            chk.run_c_jobs(js)
+        cov = chk.c_coverage(BOUNDS[tier], OUTSIDE)
+        rc_c = chk.finish('model_checking', cov, ASSUMPTIONS, seed)
+    finally:
+        chk.cleanup()
+    ev_c = json.load(open(os.path.join(out, 'evidence', pid + '.json')))
+    cs = conds(tier)
+    if only:
+        cs = [c for c in cs if only in c['function']]
+    rc_p = chdriver.run(pid, tier, seed, cs, BOUNDS[tier], OUTSIDE, ASSUMPTIONS, ['fake tree sequence: edge columns, index orders, get_edge']) if cs else 0
+    ev_p = json.load(open(os.path.join(out, 'evidence', pid + '.json')))
+    ev = ev_c
+    ev['coverage']['crosshair'] = ev_p['coverage']
+    ev['coverage']['states'] += ev_p['coverage']['states']
+    ev['coverage']['traces_validated_against_impl'] += ev_p['coverage']['traces_validated_against_impl']
+    ev['violations'] = ev_c.get('violations', 0) + ev_p.get('violations', 0)
+    ev['harness_errors'] = ev_c.get('harness_errors', []) + ev_p.get('harness_errors', [])
+    ev['known_findings'] = sorted(set(ev_c.get('known_findings', []) + ev_p.get('known_findings', [])))
+    ev['wall_s'] = round(ev_c['wall_s'] + ev_p['wall_s'], 2)
+    json.dump(ev, open(os.path.join(out, 'evidence', pid + '.json'), 'w'), indent=1)
+    return 1 if 1 in (rc_c, rc_p) else 3 if 3 in (rc_c, rc_p) else 0
